@@ -240,7 +240,9 @@ func analyzeFormat(s string) (dec, group string, decimals int, ok bool) {
 }
 
 func cmpFormat(o *cmpOut, what string, f *m.Fmt, got string) {
-	dec, group, decimals, ok := analyzeFormat(got)
+	// the sample number is what is left when the commodity is taken away (its name may hold digits: "H2O")
+	num := strings.Replace(strings.Replace(got, "\""+f.Sym+"\"", "", 1), f.Sym, "", 1)
+	dec, group, decimals, ok := analyzeFormat(num)
 	if !ok || dec != f.Dec || group != f.Group || decimals != f.Decimals {
 		o.add("c03."+what+".format", "%s format: extracted %q (decimal %q group %q decimals %d), written %q (decimal %q group %q decimals %d)", what, got, dec, group, decimals, f.Render(), f.Dec, f.Group, f.Decimals)
 	}
